@@ -88,7 +88,7 @@ def _identtr(x, latent, **k):
     return latent
 
 
-def ebv_problem(kind, ebv, nobj=1, ndecn=None, con=False, maxint=3):
+def ebv_problem(kind, ebv, nobj=1, ndecn=None, con=False, maxint=3, eq=False):
     """Small EBV selection problem in one of the four encodings (kind: subset/real/integer/binary)."""
     from pybrops.breed.prot.sel.prob.EstimatedBreedingValueSelectionProblem import (
         EstimatedBreedingValueSubsetSelectionProblem as PS, EstimatedBreedingValueRealSelectionProblem as PR,
@@ -104,6 +104,12 @@ def ebv_problem(kind, ebv, nobj=1, ndecn=None, con=False, maxint=3):
         def cvtr(x, latent, **k):          # violation when the last latent component exceeds a threshold
             return numpy.array([max(0.0, float(latent[-1]) + thr)])
         kw = dict(nineqcv=1, ineqcv_wt=numpy.array([1.0]), ineqcv_trans=cvtr)
+    if eq:
+        tgt = float(numpy.sort(ebv[:, 0])[len(ebv) // 2])
+
+        def eqtr(x, latent, **k):          # equality: the first latent component should hit a target value
+            return numpy.array([abs(float(latent[0]) + tgt)])
+        kw.update(neqcv=1, eqcv_wt=numpy.array([1.0]), eqcv_trans=eqtr)
     if kind == "subset":
         k = ndecn or max(1, n // 3)
         return PS(ebv=ebv, ndecn=k, decn_space=numpy.arange(n), decn_space_lower=numpy.repeat(0, k),
